@@ -115,61 +115,51 @@ pub mod io {
         fs::File,
         io::{self, Write},
         path::Path,
+        rc::Rc,
     };
 
-    /// Installed per thread by the harness; consulted by every export.
+    /// Installed per thread by the harness; consulted by every export. All methods take `&self`
+    /// (a hook keeps its own state behind interior mutability), because a hook may yield to
+    /// another simulated thread on the same OS thread which performs I/O itself.
     pub trait IoHook {
         /// Called before a file is created. `Err` is returned instead of creating the file.
-        fn before_create(&mut self, path: &Path) -> io::Result<()>;
+        fn before_create(&self, path: &Path) -> io::Result<()>;
         /// Called before a directory is created. `Err` is returned instead of creating it.
-        fn before_create_dir(&mut self, path: &Path) -> io::Result<()>;
+        fn before_create_dir(&self, path: &Path) -> io::Result<()>;
         /// Wraps the freshly created file.
-        fn wrap(&mut self, path: &Path, file: File) -> Box<dyn Write>;
+        fn wrap(&self, path: &Path, file: File) -> Box<dyn Write>;
     }
 
     thread_local! {
-        static HOOK: RefCell<Option<Box<dyn IoHook>>> = const { RefCell::new(None) };
+        static HOOK: RefCell<Option<Rc<dyn IoHook>>> = const { RefCell::new(None) };
     }
 
     /// Installs (or removes) the hook for the current thread, returning the previous one.
-    pub fn install(hook: Option<Box<dyn IoHook>>) -> Option<Box<dyn IoHook>> {
+    pub fn install(hook: Option<Rc<dyn IoHook>>) -> Option<Rc<dyn IoHook>> {
         HOOK.with(|h| std::mem::replace(&mut *h.borrow_mut(), hook))
     }
 
-    fn with_hook<R>(f: impl FnOnce(&mut dyn IoHook) -> R) -> Option<R> {
-        // Taken out while it runs, so a hook may yield to another simulated thread that
-        // performs I/O itself; hooks sharing state do so behind their own handle.
-        let mut hook = HOOK.with(|h| h.borrow_mut().take())?;
-        let result = f(hook.as_mut());
-        HOOK.with(|h| {
-            let mut slot = h.borrow_mut();
-            if slot.is_none() {
-                *slot = Some(hook);
-            }
-        });
-        Some(result)
+    fn current() -> Option<Rc<dyn IoHook>> {
+        HOOK.with(|h| h.borrow().clone())
     }
 
     pub(crate) fn before_create(path: &Path) -> io::Result<()> {
-        with_hook(|h| h.before_create(path)).unwrap_or(Ok(()))
+        match current() {
+            Some(hook) => hook.before_create(path),
+            None => Ok(()),
+        }
     }
 
     pub(crate) fn before_create_dir(path: &Path) -> io::Result<()> {
-        with_hook(|h| h.before_create_dir(path)).unwrap_or(Ok(()))
+        match current() {
+            Some(hook) => hook.before_create_dir(path),
+            None => Ok(()),
+        }
     }
 
     pub(crate) fn wrap(path: &Path, file: File) -> Box<dyn Write> {
-        match HOOK.with(|h| h.borrow_mut().take()) {
-            Some(mut hook) => {
-                let wrapped = hook.wrap(path, file);
-                HOOK.with(|h| {
-                    let mut slot = h.borrow_mut();
-                    if slot.is_none() {
-                        *slot = Some(hook);
-                    }
-                });
-                wrapped
-            }
+        match current() {
+            Some(hook) => hook.wrap(path, file),
             None => Box::new(file),
         }
     }
